@@ -98,7 +98,7 @@ impl PmCase {
         t
     }
     fn public_input(&self) -> PublicInput {
-        crate::refm::pubin::make_public_input(fu(10), Felt::ZERO, fu(100), fu(1), None, &[], self.pad, &self.cells, &self.headers)
+        crate::refm::make_public_input(fu(10), Felt::ZERO, fu(100), fu(1), None, &[], self.pad, &self.cells, &self.headers)
     }
     /// naive product on big integers; None when a factor vanishes (division by zero: not judged here)
     fn reference(&self) -> Option<BigUint> {
